@@ -626,12 +626,7 @@ impl<T: Object> Object for Vec<T> {
             Primitive::Null => {
                 Vec::new()
             }
-            Primitive::Reference(id) => match r.resolve(id) {
-                Ok(p) => Self::from_primitive(p, r)?,
-                // a reference to a missing object is null
-                Err(ref e) if is_missing_reference(&p, e) => Vec::new(),
-                Err(e) => return Err(e)
-            },
+            Primitive::Reference(id) => Self::from_primitive(r.resolve(id)?, r)?,
             _ => vec![T::from_primitive(p, r)?]
         }
         )
@@ -732,12 +727,7 @@ impl<V: Object> Object for HashMap<Name, V> {
                 }
                 Ok(new)
             }
-            Primitive::Reference (id) => match resolve.resolve(id) {
-                Ok(p) => HashMap::from_primitive(p, resolve),
-                // a reference to a missing object is null
-                Err(ref e) if is_missing_reference(&p, e) => Ok(HashMap::new()),
-                Err(e) => Err(e)
-            },
+            Primitive::Reference (id) => HashMap::from_primitive(resolve.resolve(id)?, resolve),
             p => Err(PdfError::UnexpectedPrimitive {expected: "Dictionary", found: p.get_debug_name()})
         }
     }
@@ -778,6 +768,14 @@ pub fn is_missing_reference(p: &Primitive, e: &PdfError) -> bool {
             PdfError::UnspecifiedXRefEntry { id: nr } => return nr == id,
             _ => return false
         }
+    }
+}
+
+/// Read the value of an entry; a reference to a missing object is read like null (like an absent entry).
+pub fn from_primitive_or_null<T: Object>(p: Primitive, resolve: &impl Resolve) -> Result<T> {
+    match T::from_primitive(p.clone(), resolve) {
+        Err(ref e) if is_missing_reference(&p, e) => T::from_primitive(Primitive::Null, resolve),
+        result => result
     }
 }
 
